@@ -120,6 +120,7 @@ def get_engine(h):
         e.base_models = dict(e.models)
     e.models = dict(e.base_models)
     e.models.update(h.models)
+    e.extra_interp = set(getattr(f, "__code__", None) for f in getattr(h, "interpret", ()))
     e.loop_bound = h.loop_bound
     e.solver.set("timeout", h.timeout_ms)
     e.violations = []
